@@ -7,4 +7,5 @@ mkdir -p /verif/bin
 (cd /verif/tools/exclgen && go build -o /verif/bin/exclgen .)
 (cd /verif/tools/c09gen && go build -o /verif/bin/c09gen .)
 (cd /verif/tools/fontgen && go build -o /verif/bin/fontgen .)
+(cd /verif/tools/repgen && go build -o /dev/null .)
 echo "setup ok"
